@@ -15,7 +15,7 @@ from vpc.core import cN, cstr, clist, copt, cbool
 from props.C17 import peer_id, good_addr, rand_component, cproto, refresh_lock, pipeline_retry
 
 IMPORTS = "Require Import V.model.Parsers V.model.BootCache."
-THEOREMS = ["constants_c18", "bounded_after_cleanup", "bounded_without_sync", "sync_breaks_bound_refuted",
+THEOREMS = ["ctor_paths_agree", "flush_then_load", "late_override_refuted", "constants_c18", "bounded_after_cleanup", "bounded_without_sync", "sync_breaks_bound_refuted",
             "load_bounded", "flush_with_cleanup_bounded", "craft_wellformed", "craft_fixpoint", "wellformed",
             "foreign_file_unvalidated_refuted", "keys_unique", "cleanup_postcondition", "cleanup_evicts_oldest",
             "cleanup_fixpoint", "sync_loses_nothing", "flush_merges", "save_load", "save_load_clean",
@@ -26,6 +26,9 @@ RULE = ("data histories: 12-40 steps over 3 CacheData slots, 4-8 peers with 2-5 
         "(raw multiaddresses with extra protocols, unparsable text), status updates, removals, clean-ups, foreign / "
         "valid / corrupt cache files written underneath (incl. long ones, so that the next flush is a shrinking rewrite of the "
         "same path), flushes with and without clean-up, loads, sleeps; "
+        "constructors: BootstrapCacheStore::new and new_from_peers_args with every combination of config given / default, "
+        "bootstrap_cache_dir, first, local (and both values of the two flags it ignores), a distinct cache file present at each "
+        "candidate location, then add / flush / reload through an identically constructed store; "
         "concurrent: 4-8 threads + 2-3 processes x 15-40 flushes with a reader; a case is distinct/non-trivial by "
         "(kind, limits, multiset of step kinds, whether an eviction / expiry / merge / corrupt file occurred)")
 ASSUMPTIONS = [
@@ -186,6 +189,38 @@ def gen_store_history(rng, deep):
     return {"op": "history", "kind": "store", "cfg": cfg, "steps": steps}
 
 
+def seed_file_text(rng, p):
+    t, pr = good_addr(rng, p)
+    text = json.dumps({"peers": {p[0]: [{"addr": t, "success_count": 2, "failure_count": 0,
+                                          "last_seen": {"secs_since_epoch": "@S-10@", "nanos_since_epoch": 0}}]},
+                       "last_updated": {"secs_since_epoch": "@S-1@", "nanos_since_epoch": 0}, "network_version": "1_0.1"})
+    return re.sub(r'"(@S-?\d+@)"', r"\1", text), {"peer": p[1].hex(), "addrs": [{"protos": pr, "s": 2, "f": 0, "rel": -10 * 10 ** 9, "addr": t}]}
+
+
+def gen_ctor_cases(rng):
+    """every constructor of BootstrapCacheStore x every combination of the PeersArgs fields it reads (and two it does not),
+    with a cache file holding one distinct recent peer already present at each of the three candidate locations"""
+    out = []
+    combos = [("new", cfg, False, False, False, False, False) for cfg in (True, False)]
+    for cfg in (True, False):
+        for custom in (True, False):
+            for first in (True, False):
+                for local in (True, False):
+                    dm, ic = rng.random() < 0.5, rng.random() < 0.5
+                    combos.append(("peers_args", cfg, custom, first, local, dm, ic))
+                    combos.append(("peers_args", cfg, custom, first, local, not dm, not ic))
+    for ctor, cfg, custom, first, local, dm, ic in combos:
+        seeds = [peer_id(rng) for _ in range(3)]
+        files = [seed_file_text(rng, p) for p in seeds]
+        newp = [peer_id(rng) for _ in range(rng.choice([1, 2, 3]))]
+        adds = [good_addr(rng, p) for p in newp]
+        out.append({"op": "ctor", "kind": "ctor", "ctor": ctor, "config": cfg, "custom_dir": custom, "first": first, "local": local,
+                    "disable_mainnet_contacts": dm, "ignore_cache": ic, "cleanup": True,
+                    "seed_files": [f[0] for f in files], "seed_data": [f[1] for f in files],
+                    "adds": [a[0] for a in adds], "add_protos": [a[1] for a in adds], "add_peers": [p[1].hex() for p in newp]})
+    return out
+
+
 def gen(ctx):
     rng = ctx.rng
     quick = ctx.tier == "quick"
@@ -194,6 +229,7 @@ def gen(ctx):
         cases.append(gen_data_history(rng, deep=(i % 12 == 11)))
     for i in range(70 if quick else 700):
         cases.append(gen_store_history(rng, deep=(i % 12 == 11)))
+    cases += gen_ctor_cases(rng)
     conc = [{"threads": 4, "procs": 2, "rounds": 15, "per_round": 4, "max_peers": 1500},
             {"threads": 8, "procs": 3, "rounds": 20, "per_round": 3, "max_peers": 50}]
     if not quick:
@@ -254,6 +290,37 @@ def oracle(c, o):
             v.append(("bound", "a load returned more than max_peers peers"))
         if o["temp_leftovers"]:
             v.append(("temp-left", "%d temporary files left next to the cache file" % o["temp_leftovers"]))
+        return v
+    if c["op"] == "ctor":
+        if "build_err" in o:
+            return [("ctor-failed", "constructing the store failed: " + o["build_err"])]
+        labels = ["config", "custom", "default"]
+        want = ("config" if c["config"] else "default") if (c["ctor"] == "new" or not c["custom_dir"]) else "custom"
+        pa = c["ctor"] == "peers_args"
+        desc = "%s(config=%s, bootstrap_cache_dir=%s, first=%s, local=%s)" % (c["ctor"], c["config"], c["custom_dir"], c["first"], c["local"])
+        if o["config_path"] != want:
+            v.append(("wrong-file", "%s: config().cache_file_path is the %s location, expected the %s one" % (desc, o["config_path"], want)))
+        disabled = pa and c["local"]
+        if o["disabled"] != disabled:
+            v.append(("ctor-flags", "%s: disable_cache_writing = %s" % (desc, o["disabled"])))
+        wb = [want] if (pa and c["first"]) else []
+        if sorted(o["changed_by_build"]) != wb:
+            v.append(("wrong-file", "%s: construction changed the files %s, expected %s" % (desc, o["changed_by_build"], wb)))
+        wf = [] if disabled else [want]
+        if sorted(o["changed_by_flush"]) != wf:
+            v.append(("wrong-file", "%s: the flush changed the files %s, expected only %s (written where it is later read, no other "
+                      "file of the tree touched)" % (desc, o["changed_by_flush"], wf)))
+        seed_peer = c["seed_data"][labels.index(want)]["peer"]
+        expect = set() if (pa and c["first"]) else {seed_peer}
+        if not disabled:
+            expect |= set(c["add_peers"])
+        r = o["reload"]
+        got = {p["peer"] for p in r.get("peers", [])} if r.get("ok") else None
+        if got != expect:
+            v.append(("flush-reload", "%s: a store constructed the same way loads back %s peers from the %s location; after this "
+                      "construction + flush that file should hold %d (%d of them missing, %d unexpected)" % (
+                          desc, "no" if got is None else len(got), r.get("path"), len(expect),
+                          len(expect - (got or set())), len((got or set()) - expect))))
         return v
     cfg = c["cfg"]
     steps, trace = c["steps"], o["trace"]
@@ -383,7 +450,27 @@ def parse_protos_of(trace_step, st):
     return st.get("protos")
 
 
+def ctor_term(c, o):
+    if "build_err" in o:
+        return "false"
+    nm = Names()
+    base_ns = o["base_secs"] * 10 ** 9
+    labels = ["config", "custom", "default"]
+    fs0 = clist(["(%s, %s)" % (cstr(l), ccache(nm, [d], base_ns)) for l, d in zip(labels, c["seed_data"])])
+    pa = "{| pa_first := %s; pa_local := %s; pa_dir := %s |}" % (
+        cbool(c["first"]), cbool(c["local"]), copt("custom" if c["custom_dir"] else None, cstr))
+    r = o["reload"]
+    reload = copt([p["peer"] for p in r["peers"]] if r.get("ok") else None, lambda ks: clist([nm.p(k) for k in ks]))
+    body = "agree_ctor %s %s %s %s %s %s %s %s %s %s %s %s" % (
+        "default_config", cN(base_ns + 10 ** 9), cbool(c["ctor"] == "new"), copt("config" if c["config"] else None, cstr), pa, fs0,
+        clist([nm.a(pr) for pr in c["add_protos"]]), cstr(o["config_path"]), cbool(o["disabled"]),
+        clist([cstr(x) for x in o["changed_by_build"]]), clist([cstr(x) for x in o["changed_by_flush"]]), reload)
+    return "(" + " ".join(nm.defs) + " " + body + ")"
+
+
 def model_term(c, o):
+    if c["op"] == "ctor":
+        return "false" if "panic" in o else ctor_term(c, o)
     if "panic" in o or c["op"] != "history":
         return None if c["op"] != "history" else "false"
     nm = Names()
@@ -475,6 +562,8 @@ def show(c, o):
 def nontrivial(c, o):
     if c["op"] == "concurrent":
         return ("concurrent", c["threads"], c["procs"], c["max_peers"])
+    if c["op"] == "ctor":
+        return ("ctor", c["ctor"], c["config"], c["custom_dir"], c["first"], c["local"])
     ks = sorted(s["k"] + str(s.get("fkind", "")) + str(s.get("cleanup", "")) for s in c["steps"])
     evicted = any(len(t.get("data", t.get("store", {}).get("peers", []))) == c["cfg"]["max_peers"] for t in o.get("trace", []))
     return (c["kind"], c["cfg"]["max_peers"], c["cfg"]["max_addrs"], c["cfg"]["expiry_secs"], tuple(ks)[:40], evicted)
